@@ -1,7 +1,7 @@
 import PytezosModel.Generated.C20
 /-! C20 — tickets: a mini-interpreter mirroring how pytezos executes the ticket instructions together with the
-pair / option / list / map / big_map and stack instructions (src/pytezos/michelson/instructions/{ticket,adt,struct,stack,
-control}.py, types/{ticket,base,map,big_map,list,option}.py, stack.py).
+pair / or / option / list / set / map / big_map / lambda and stack instructions (src/pytezos/michelson/instructions/{ticket,
+adt,struct,stack,control}.py, types/{ticket,base,map,big_map,set,sum,list,option}.py, stack.py).
 
 What is mirrored literally: `MichelsonStack` (`items` + `protected`: `protect`, `restore`, `push` = `insert(protected, …)`,
 `peek`, `pop`), every instruction's dynamic checks (`assert_type_in`, `assert_type_equal`, `is_duplicable`, `duplicate`,
@@ -22,6 +22,7 @@ inductive Atom where
   | str (s : String)
   | addr (s : String)
   | unit
+  | bool (b : Bool)
   deriving DecidableEq, Repr, Inhabited
 
 /-- comparable values: ticket contents -/
@@ -33,8 +34,11 @@ inductive Cmp where
 /-- runtime classes.  `ticketBare` is the class `TicketType` itself (`args = []`), which `split` / `join` instantiate when
 they do not use `type(self)` -/
 inductive Ty where
-  | nat | string | address | unit
+  | nat | string | address | unit | bool
   | pair (a b : Ty)
+  | or (a b : Ty)
+  | set (t : Ty)
+  | lambda (a b : Ty)
   | option (t : Ty)
   | list (t : Ty)
   | map (k v : Ty)
@@ -44,18 +48,22 @@ inductive Ty where
   deriving DecidableEq, Repr, Inhabited
 
 def Ty.prim : Ty → String
-  | .nat => "nat" | .string => "string" | .address => "address" | .unit => "unit"
-  | .pair .. => "pair" | .option _ => "option" | .list _ => "list" | .map .. => "map" | .bigMap .. => "big_map"
+ | .nat => "nat" | .string => "string" | .address => "address" | .unit => "unit" | .bool => "bool"
+  | .pair .. => "pair" | .or .. => "or" | .set _ => "set" | .lambda .. => "lambda" | .option _ => "option" | .list _ => "list" | .map .. => "map" | .bigMap .. => "big_map"
   | .ticket _ => "ticket" | .ticketBare => "ticket"
 
-/-- the shape shared by `is_duplicable` / `is_comparable` / `is_pushable`: false on the listed prims, otherwise all
-arguments (there is no `lambda` in this model) -/
+/-- the shape shared by `is_duplicable` / `is_comparable` / `is_pushable`: false on the listed prims, true on `lambda`
+(whatever its arguments), otherwise all arguments -/
 def Ty.all (bad : List String) : Ty → Bool
   | .nat => !bad.contains "nat"
   | .string => !bad.contains "string"
   | .address => !bad.contains "address"
   | .unit => !bad.contains "unit"
+  | .bool => !bad.contains "bool"
   | .pair a b => !bad.contains "pair" && (a.all bad && b.all bad)
+  | .or a b => !bad.contains "or" && (a.all bad && b.all bad)
+  | .set t => !bad.contains "set" && t.all bad
+  | .lambda _ _ => !bad.contains "lambda"          -- `elif cls.prim == 'lambda': return True`: the arguments are not looked at
   | .option t => !bad.contains "option" && t.all bad
   | .list t => !bad.contains "list" && t.all bad
   | .map k v => !bad.contains "map" && (k.all bad && v.all bad)
@@ -64,7 +72,7 @@ def Ty.all (bad : List String) : Ty → Bool
   | .ticketBare => !bad.contains "ticket"
 
 def Ty.isAtomTy : Ty → Bool
-  | .nat | .string | .address | .unit => true
+  | .nat | .string | .address | .unit | .bool => true
   | _ => false
 
 structure Cfg where
@@ -75,7 +83,6 @@ structure Cfg where
   splitKeeps : Bool
   joinKeeps : Bool
   bigGetDup : Bool
-  bigUpdWalksRemoved : Bool
   dupChecksBig : Bool
 
 /-- the code under test; whatever the translator did not recognise defaults to the pessimistic reading -/
@@ -87,11 +94,12 @@ def cfg : Cfg where
   splitKeeps := Generated.C20.splitKeepsClass.getD false
   joinKeeps := Generated.C20.joinKeepsClass.getD false
   bigGetDup := Generated.C20.bigMapGetHonoursDup.getD false
-  bigUpdWalksRemoved := Generated.C20.bigMapUpdateWalksRemoved.getD true
   dupChecksBig := Generated.C20.dupChecksBigMap.getD false && Generated.C20.duplicateAsserts
 
-/-- runtime values.  A (big_)map keeps its keys and values in two lists of equal length (`items` of the Python object);
-`removed` = `BigMapType.removed_keys`.  Map keys are atoms (pair keys are outside the model). -/
+/- runtime values and instructions (mutual: a lambda value holds code, PUSH holds a value).  A (big_)map keeps its keys
+and values in two lists of equal length (`items` of the Python object); `removed` = `BigMapType.removed_keys`.  Map keys
+are atoms (pair keys are outside the model). -/
+mutual
 inductive Val where
   | atom (a : Atom)
   | ticket (cls : Ty) (ticketer : String) (contents : Cmp) (amount : Nat)
@@ -100,10 +108,35 @@ inductive Val where
   | some (v : Val)
   | list (t : Ty) (xs : List Val)
   | map (big : Bool) (k v : Ty) (keys : List Atom) (vals : List Val) (removed : List Atom)
-  deriving Inhabited
+  /-- `OrType((left, Undefined))`; `rt` = the other type argument of the class -/
+  | left (v : Val) (rt : Ty)
+  | right (lt : Ty) (v : Val)
+  /-- a set of atoms (other element types are outside the model) -/
+  | set (t : Ty) (xs : List Atom)
+  /-- `LambdaType(value=body)` of class `lambda a b` -/
+  | lam (a b : Ty) (body : List Instr)
+inductive Instr where
+  | ticket | readTicket | splitTicket | joinTickets
+  | pair | unpair | car | cdr
+  | some | none (t : Ty) | ifNone (bt bf : List Instr)
+  | cons | nil (t : Ty) | iter (body : List Instr) | map (body : List Instr)
+  | dup | dupN (n : Nat) | swap | dig (n : Nat) | dug (n : Nat) | drop
+  | dip (body : List Instr) | dipN (n : Nat) (body : List Instr)
+  | push (t : Ty) (v : Val)
+  | emptyMap (k v : Ty) | emptyBigMap (k v : Ty)
+  | get | getAndUpdate | update
+  | left (t : Ty) | right (t : Ty) | ifLeft (bt bf : List Instr)
+  | emptySet (t : Ty) | mem
+  | lambda (a b : Ty) (body : List Instr) | exec | apply
+  | failwith
+  | seq (body : List Instr)
+end
+
+instance : Inhabited Val := ⟨.atom .unit⟩
+instance : Inhabited Instr := ⟨.drop⟩
 
 def Atom.ty : Atom → Ty
-  | .nat _ => .nat | .str _ => .string | .addr _ => .address | .unit => .unit
+  | .nat _ => .nat | .str _ => .string | .addr _ => .address | .unit => .unit | .bool _ => .bool
 
 def Cmp.ty : Cmp → Ty
   | .atom a => a.ty
@@ -118,6 +151,10 @@ def Val.typeOf : Val → Ty
   | .some v => .option v.typeOf
   | .list t _ => .list t
   | .map big k v .. => if big then .bigMap k v else .map k v
+  | .left v rt => .or v.typeOf rt
+  | .right lt v => .or lt v.typeOf
+  | .set t _ => .set t
+  | .lam a b _ => .lambda a b
 
 def Cmp.toVal : Cmp → Val
   | .atom a => .atom a
@@ -133,9 +170,9 @@ def Val.toCmp : Val → Option Cmp
 
 inductive Err where
   | fail
-  /-- DUP 0; ITER over a big_map with removed keys; comparable contents other than atoms / pairs of atoms; (big_)maps whose
-  key type is not an atom type; PUSH of a map literal; `BigMapType.update` on an existing key while the comprehensions walk
-  the removed keys (the C15 defect) -/
+  /-- DUP 0; ITER over a big_map with removed keys; comparable contents other than atoms / pairs of atoms; (big_)maps and
+  sets whose key / element type is not an atom type; MAP over a non-empty set; ITER / MAP over an `or` value (the real
+  loop pushes the `Undefined` marker of the empty side) -/
   | unmodelled
   | fuel
   deriving DecidableEq, Repr
@@ -209,6 +246,7 @@ def Atom.lt : Atom → Atom → Bool
   | .nat a, .nat b => a < b
   | .str a, .str b => a < b
   | .addr a, .addr b => a < b
+  | .bool a, .bool b => !a && b
   | _, _ => false
 
 def lookup (key : Atom) : List Atom → List Val → Option Val
@@ -248,7 +286,8 @@ def mapGet (c : Cfg) (big : Bool) (kt vt : Ty) (keys : List Atom) (vals : List V
       | Option.none => .ok Option.none     -- a removed key yields None; an unknown key asks the (empty, offline) context: None
     | _ => .error .unmodelled
 
-/-- `update(key, val)` → (previous value, new map) -/
+/-- `update(key, val)` → (previous value, new map).  `MapType.update`, and `BigMapType.update` as repaired for C15 (its
+comprehensions walk `self.items`; `removed_keys` is a set: add on removal, discard on insertion) -/
 def mapUpdate (c : Cfg) (big : Bool) (kt vt : Ty) (keys : List Atom) (vals : List Val) (removed : List Atom)
     (key : Val) (val : Option Val) : M (Option Val × Val) := do
   let prev ← mapGet c big kt vt keys vals removed key false
@@ -256,18 +295,24 @@ def mapUpdate (c : Cfg) (big : Bool) (kt vt : Ty) (keys : List Atom) (vals : Lis
   | .atom k =>
     match prev, val with
     | Option.some p, Option.some x =>
-      if big && c.bigUpdWalksRemoved && !removed.isEmpty then .error .unmodelled
-      else pure (Option.some p, .map big kt vt keys (replaceVal k x keys vals) removed)
+      -- offline a previous value always sits in `items` (the `else` branch of the big_map code needs a context value)
+      pure (Option.some p, .map big kt vt keys (replaceVal k x keys vals) removed)
     | Option.some p, Option.none =>
-      if big && c.bigUpdWalksRemoved && !removed.isEmpty then .error .unmodelled
-      else
-        let (ks, vs) := removeKey k keys vals
-        pure (Option.some p, .map big kt vt ks vs (if big then (if removed.contains k then removed else k :: removed) else removed))
+      let (ks, vs) := removeKey k keys vals
+      pure (Option.some p, .map big kt vt ks vs (if big then (if removed.contains k then removed else k :: removed) else removed))
     | Option.none, Option.some x =>
       let (ks, vs) := insertSorted k x keys vals
       pure (Option.none, .map big kt vt ks vs (if big then removed.filter (· != k) else removed))
     | Option.none, Option.none => pure (Option.none, .map big kt vt keys vals removed)
   | _ => .error .unmodelled
+
+/-- `sorted([item] + items)` for sorted `items` not containing `item` -/
+def insertAtom (k : Atom) : List Atom → List Atom
+  | x :: xs => if k.lt x then k :: x :: xs else x :: insertAtom k xs
+  | [] => [k]
+
+/-- `SetType.add` -/
+def setAdd (k : Atom) (xs : List Atom) : List Atom := if xs.contains k then xs else insertAtom k xs
 
 /-- the option on the stack as the Python `None | value` handed to `update` (`none` = not an option: AttributeError /
 failed `assert_type_in`) -/
@@ -288,20 +333,6 @@ def storeOk (vt : Ty) : Option Val → Bool
 
 /-! ### instructions -/
 
-inductive Instr where
-  | ticket | readTicket | splitTicket | joinTickets
-  | pair | unpair | car | cdr
-  | some | none (t : Ty) | ifNone (bt bf : List Instr)
-  | cons | nil (t : Ty) | iter (body : List Instr) | map (body : List Instr)
-  | dup | dupN (n : Nat) | swap | dig (n : Nat) | dug (n : Nat) | drop
-  | dip (body : List Instr) | dipN (n : Nat) (body : List Instr)
-  | push (t : Ty) (v : Val)
-  | emptyMap (k v : Ty) | emptyBigMap (k v : Ty)
-  | get | getAndUpdate | update
-  | failwith
-  | seq (body : List Instr)
-  deriving Inhabited
-
 /-- what `create_type` asserts when the type arguments of an instruction are matched (before anything runs):
 keys of map / big_map and ticket contents are comparable; there is no source syntax for the bare ticket class -/
 def Ty.wf (c : Cfg) : Ty → Bool
@@ -311,6 +342,9 @@ def Ty.wf (c : Cfg) : Ty → Bool
   | .map k v => k.all c.nonCmp && k.wf c && v.wf c
   | .bigMap k v => k.all c.nonCmp && k.wf c && v.wf c
   | .ticket t => t.all c.nonCmp && t.wf c
+  | .or a b => a.wf c && b.wf c
+  | .set t => t.all c.nonCmp && t.wf c
+  | .lambda a b => a.wf c && b.wf c
   | .ticketBare => false
   | _ => true
 
@@ -321,7 +355,12 @@ mutual
     | .push t _ => t.wf c
     | .emptyMap k v => (Ty.map k v).wf c
     | .emptyBigMap k v => (Ty.bigMap k v).wf c
+    | .emptySet t => (Ty.set t).wf c
+    | .left t => t.wf c
+    | .right t => t.wf c
     | .ifNone a b => Instr.wfList c a && Instr.wfList c b
+    | .ifLeft a b => Instr.wfList c a && Instr.wfList c b
+    | .lambda a b body => a.wf c && b.wf c && Instr.wfList c body
     | .iter b => Instr.wfList c b
     | .map b => Instr.wfList c b
     | .dip b => Instr.wfList c b
@@ -348,14 +387,36 @@ mutual
     | .some v => v.consistent
     | .list t xs => Val.consistentList t xs
     | .map _ _ v keys vals _ => keys.length == vals.length && nodupB keys && Val.consistentList v vals
+    | .left v _ => v.consistent
+    | .right _ v => v.consistent
+    | .set _ xs => nodupB xs
+    | .lam .. => true
   def Val.consistentList (t : Ty) : List Val → Bool
     | [] => true
     | x :: xs => x.typeOf == t && x.consistent && Val.consistentList t xs
 end
 
-def Val.isMapLit : Val → Bool
-  | .map .. => true
-  | _ => false
+/-- strictly increasing (what `check_constraints` asserts of the keys of a map literal / the elements of a set literal) -/
+def sortedB : List Atom → Bool
+  | a :: b :: rest => a.lt b && sortedB (b :: rest)
+  | _ => true
+
+mutual
+  /-- what parsing a literal against its type guarantees beyond `consistent`: keys / elements of the declared class, in
+  strictly increasing order, nothing removed -/
+  def Val.litOk : Val → Bool
+    | .pair l r => l.litOk && r.litOk
+    | .some v => v.litOk
+    | .list _ xs => Val.litOkList xs
+    | .map _ k _ keys vals removed => keys.all (fun a => a.ty == k) && sortedB keys && removed.isEmpty && Val.litOkList vals
+    | .left v _ => v.litOk
+    | .right _ v => v.litOk
+    | .set t xs => xs.all (fun a => a.ty == t) && sortedB xs
+    | _ => true
+  def Val.litOkList : List Val → Bool
+    | [] => true
+    | x :: xs => x.litOk && Val.litOkList xs
+end
 
 /-- `ListType.from_items` / `MapType.from_items` check: every item has the class of the first -/
 def sameTypes (t : Ty) (xs : List Val) : Bool := xs.all (·.typeOf == t)
@@ -367,6 +428,9 @@ def elements : Val → M (List Val)
   | .map big _ _ keys vals removed =>
     if big && !removed.isEmpty then .error .unmodelled
     else .ok ((keys.zip vals).map fun (k, v) => .pair (.atom k) v)
+  | .set _ xs => .ok (xs.map .atom)
+  | .left .. => .error .unmodelled        -- (not Michelson) `OrType.__iter__` yields the value and the `Undefined` marker
+  | .right .. => .error .unmodelled
   | _ => .error .fail
 
 /-- the instructions that pop a fixed number of items and push their results (`none` in the result list = nothing) -/
@@ -445,8 +509,7 @@ def simple (c : Cfg) (s : State) : Instr → Option (M State)
   | .failwith => Option.some (.error .fail)     -- pops one item and raises (or fails to pop): an error either way
   | .push t v => Option.some (
     if !t.all c.nonPush then .error .fail
-    else if v.isMapLit then .error .unmodelled
-    else if v.typeOf == t && v.consistent then pure (s.push v) else .error .fail)
+    else if v.typeOf == t && v.consistent && v.litOk then pure (s.push v) else .error .fail)
   | .emptyMap k v => Option.some (if k.isAtomTy then pure (s.push (.map false k v [] [] [])) else .error .unmodelled)
   | .emptyBigMap k v => Option.some (if k.isAtomTy then pure (s.push (.map true k v [] [] [])) else .error .unmodelled)
   | .get => Option.some do
@@ -471,10 +534,46 @@ def simple (c : Cfg) (s : State) : Instr → Option (M State)
     match src with
     | .map big kt vt keys vals removed =>
       match optOf val with
-      | Option.none => .error .fail
+      | Option.none => .error .fail           -- a bool (or anything else) with a map
       | Option.some ov => do
         let (_, dst) ← mapUpdate c big kt vt keys vals removed key ov
         pure ({ s with typedStores := s.typedStores && storeOk vt ov }.push dst)
+    | .set t xs =>
+      match val with
+      | .atom (.bool b) =>          -- `src.add(key) if bool(val) else src.remove(key)`; both start with `contains`
+        if key.typeOf != t then .error .fail
+        else match key with
+          | .atom k => pure (s.push (.set t (if b then setAdd k xs else xs.filter (· != k))))
+          | _ => .error .unmodelled
+      | _ => .error .fail                      -- an option with a set
+    | _ => .error .fail
+  | .left t => Option.some do
+    let (v, s) ← s.pop1
+    pure (s.push (.left v t))
+  | .right t => Option.some do
+    let (v, s) ← s.pop1
+    pure (s.push (.right t v))
+  | .lambda a b body => Option.some (pure (s.push (.lam a b body)))
+  | .apply => Option.some do
+    let (left, lam, s) ← s.pop2
+    match lam with
+    | .lam (.pair lt rt) b body =>
+      if left.typeOf != lt then .error .fail
+      -- `{ PUSH left_type <literal of left> ; PAIR ; <body> }`: the captured value is re-read from its literal when the PUSH runs
+      else pure (s.push (.lam rt b [.push lt left, .pair, .seq body]))
+    | _ => .error .fail
+  | .emptySet t => Option.some (if t.isAtomTy then pure (s.push (.set t [])) else .error .unmodelled)
+  | .mem => Option.some do
+    let (key, src, s) ← s.pop2
+    match src with
+    | .set t xs =>
+      if key.typeOf != t then .error .fail
+      else match key with
+        | .atom k => pure (s.push (.atom (.bool (xs.contains k))))
+        | _ => .error .unmodelled
+    | .map big kt vt keys vals removed => do
+      let r ← mapGet c big kt vt keys vals removed key false
+      pure (s.push (.atom (.bool r.isSome)))
     | _ => .error .fail
   | _ => Option.none
 
@@ -530,6 +629,25 @@ mutual
           | .none _ => execSeq c f bt s
           | .some v => execSeq c f bf (s.push v)
           | _ => .error .fail
+        | .exec => do
+          let (param, lam, s) ← s.pop2
+          match lam with
+          | .lam a b body =>
+            if param.typeOf != a then .error .fail
+            else do
+              -- `lambda_stack = MichelsonStack.from_items([param])`; the body runs on it with the same context
+              let ls ← execSeq c f body { s with items := [param], prot := 0 }
+              let (res, ls) ← ls.pop1
+              if res.typeOf != b then .error .fail
+              else if !ls.items.isEmpty then .error .fail
+              else pure ({ s with typedStores := ls.typedStores, minted := ls.minted }.push res)
+          | _ => .error .fail
+        | .ifLeft bt bf => do
+          let (o, s) ← s.pop1
+          match o with
+          | .left v _ => execSeq c f bt (s.push v)
+          | .right _ v => execSeq c f bf (s.push v)
+          | _ => .error .fail
         | .iter body => do
           let (src, s) ← s.pop1
           let els ← elements src
@@ -553,6 +671,11 @@ mutual
           | .map true _ _ keys _ removed =>
             -- `BigMapType.from_items` is forbidden: only the empty big_map survives MAP
             if keys.isEmpty && removed.isEmpty then pure (s.push src) else .error .fail
+          | .set _ xs =>
+            -- (not Michelson) `SetType.from_items` would rebuild a set from the results: outside the model
+            if xs.isEmpty then pure (s.push src) else .error .unmodelled
+          | .left .. => .error .unmodelled
+          | .right .. => .error .unmodelled
           | _ => .error .fail          -- not iterable, or (pair) no `from_items`
         | _ => .error .fail
   def execSeq (c : Cfg) : Nat → List Instr → State → M State
@@ -594,6 +717,8 @@ mutual
     | .some v => ticketSum k v
     | .list _ xs => ticketSumList k xs
     | .map _ _ _ _ vals _ => ticketSumList k vals
+    | .left v _ => ticketSum k v
+    | .right _ v => ticketSum k v
     | _ => 0
   def ticketSumList (k : TKey) : List Val → Nat
     | [] => 0
@@ -614,6 +739,8 @@ mutual
     | .some v => noZero v
     | .list _ xs => noZeroList xs
     | .map _ _ _ _ vals _ => noZeroList vals
+    | .left v _ => noZero v
+    | .right _ v => noZero v
     | _ => true
   def noZeroList : List Val → Bool
     | [] => true
@@ -628,6 +755,8 @@ mutual
     | .some v => tickets v
     | .list _ xs => ticketsList xs
     | .map _ _ _ _ vals _ => ticketsList vals
+    | .left v _ => tickets v
+    | .right _ v => tickets v
     | _ => []
   def ticketsList : List Val → List (String × Cmp × Nat)
     | [] => []
